@@ -406,6 +406,12 @@ def run(chk, repo):
            'open() does not register pointers for every GVF file', key=op.qual + '::every-file', fn=op.qual)
 
     rule_identity(chk, repo, 'C06.g')
+    # C06.h (shared with C12.a / C04.f): the canonical pool an index directory hands out is the one digested with ALL the requested
+    # parameters - the lookup key holds every digestion parameter (the cleavage exception included) and whole keys are compared
+    from rules.C12 import lookup_key_rules
+    chk.rule('C06.h', 'R-KEYS (shared with C12.a): the pool lookup key == the digestion parameters; lookup compares complete keys', 3)
+    chk.clauses.append('C06.h (shared with C12.a / C04.f) raw-file and index references filter against the same canonical pool: the index lookup compares every digestion parameter, the cleavage exception included')
+    lookup_key_rules(chk, repo, 'C06.h')
 
     # ------------------------------------------------------------------ C06.e
     from rules.C10 import rule_thread
